@@ -15,6 +15,7 @@ import (
 // round2Hooks runs the helpers of this file that belong to property id (called at the end of the property's rules).
 func round2Hooks(c *Ctx, id string) {
 	round2Hooks2(c, id)
+	round2Hooks3(c, id)
 	switch id {
 	case "C01":
 		sharedDeleteExact(c, "C01.g shared-delete-exact")
